@@ -100,7 +100,7 @@ REVIEWED_DELETES: Dict[Tuple[str, str], tuple] = {
     (L + "LT09.py::Rule_LT09._eval_single_select_target_element", "LintFix.delete(seg)"): (
         "MOVE+WS",
         "initial_deletes holds target_seg and modifier[0] (both re-inserted through insert_buff by the LintFix.replace in the same list) and segments tested is_type('whitespace')/is_whitespace; "
-        "the later loop deletes to_delete (= [target_seg] or a loop_while=whitespace selection) and move_after_select_clause, which is re-created after the select clause in the same fix list",
+        "the later loop deletes to_delete (= [target_seg] or a loop_while=whitespace selection) and move_after_select_clause, which -- its indent / dedent metas apart (no text; left out since repo 12ae6b1 because an edit cannot hold them) -- is re-created after the select clause in the same fix list",
         [
             "insert_buff = [WhitespaceSegment(), target_seg]",
             "insert_buff = [WhitespaceSegment(), modifier[0]] + insert_buff",
@@ -108,7 +108,8 @@ REVIEWED_DELETES: Dict[Tuple[str, str], tuple] = {
             "if select_children[target_idx - 1].is_type('whitespace'):",
             "select_children[modifier_idx + 2].is_whitespace",
             "to_delete = select_children.reversed().select(loop_while=sp.is_type('whitespace'), start_seg=select_children[start_idx])",
-            "LintFix.create_after(select_clause[0], ([NewlineSegment()] if add_newline else []) + list(move_after_select_clause))",
+            "moved_segments = [seg for seg in move_after_select_clause if not seg.is_meta]",
+            "LintFix.create_after(select_clause[0], ([NewlineSegment()] if add_newline else []) + moved_segments)",
         ],
         2,
     ),
